@@ -14,7 +14,7 @@ from .spec import stems_of
 BOUNDARY_LENS = [1, 2, 3, 5, 72, 73, 74, 75, 76, 146, 147, 148, 149, 150, 221, 222, 223, 300, 600]
 SMALL_LENS = [1, 2, 3, 4, 5, 8]
 import os as _os
-if _os.environ.get("VERIF_TIER") == "thorough" or _os.environ.get("TV_TIER") == "thorough":
+if _os.environ.get("TV_TIER") == "thorough":       # set by tv.runner from the tier actually requested
     # deeper bounds in the thorough tier: more exact multiples of the payload, stems of a dozen and of forty blocks
     BOUNDARY_LENS = BOUNDARY_LENS + [296, 297, 370, 444, 1000, 2960, 2961]
 
